@@ -23,7 +23,9 @@ def replay_one(prop, rp):
         setup = cf.parse_history(rp["setup"]) if isinstance(rp["setup"], str) else [cf.parse_call(x) for x in rp["setup"]]
         calls = parse_calls(rp["calls"])
         schedule = [int(x) for x in rp["schedule"].split(",") if x != ""]
-        r = sched.run_schedule(Universe(), setup, calls, schedule=schedule, mode=rp.get("mode", "th"))
+        uk = rp.get("universe")
+        u = Universe(pids={int(k): v for k, v in uk["pids"].items()}, fmts={int(k): v for k, v in uk["fmts"].items()}) if uk else Universe()
+        r = sched.run_schedule(u, setup, calls, schedule=schedule, mode=rp.get("mode", "th"))
         show("implementation under that schedule", {"outcomes": r["outcomes"], "files": r["state"], "locked": r["locks"], "status": r["status"]})
         print("  model: " + model.run_lines([sched.model_sched_line("replay", setup, calls, schedule)])[0][-600:])
         return True
